@@ -716,4 +716,351 @@ Proof.
   unfold rel, init_state; cbn. splits; auto.
 Qed.
 
+(* ---------- unknown names and capability mismatches change nothing ---------- *)
+
+Lemma idle_step dir st c :
+  idle dir c = true -> addressable c = true -> step sh dir st c = (st, Continue, []).
+Proof.
+  destruct Hgood as (_ & _ & _ & Hchk & _).
+  destruct c as [v | t dur | t on dur | n first last dur | n rows cols dur | n]; cbn [idle addressable step].
+  - discriminate.
+  - destruct t; try discriminate; cbn [resolve];
+      [destruct (find_light dir n) | destruct (members w_group dir n) | destruct (members w_loc dir n)];
+      intros; try discriminate; reflexivity.
+  - destruct t; try discriminate; cbn [resolve];
+      [destruct (find_light dir n) | destruct (members w_group dir n) | destruct (members w_loc dir n)];
+      intros; try discriminate; reflexivity.
+  - destruct (find_light dir n) as [w|]; [|reflexivity]. destruct (w_kind w); intros; try discriminate; reflexivity.
+  - destruct (find_light dir n) as [w|].
+    + destruct (w_kind w); intros H1 H2; try discriminate; rewrite H2, Hchk; reflexivity.
+    + intros _ H2. rewrite H2. reflexivity.
+  - destruct (find_light dir n) as [w|]; [|reflexivity]. destruct (w_kind w); intros; try discriminate; reflexivity.
+Qed.
+
+(* THEOREM: deleting the commands aimed at unknown or wrong-type targets changes neither the
+   requests, nor the registers, nor the way the run ends. *)
+Theorem run_without_idle dir cs : forall st,
+  Forall (fun c => addressable c = true) cs ->
+  run sh dir st cs = run sh dir st (filter (fun c => negb (idle dir c)) cs).
+Proof.
+  induction cs as [|c cs IH]; intros st Hall; [reflexivity|].
+  inversion Hall as [|? ? Hc Hcs]; subst. cbn [filter].
+  destruct (idle dir c) eqn:Hi; cbn [negb].
+  - cbn [run]. rewrite (idle_step dir st c Hi Hc). rewrite <- (IH st Hcs).
+    destruct (run sh dir st cs) as [[st' res] t]. reflexivity.
+  - cbn [run]. destruct (step sh dir st c) as [[st1 res] t1]. destruct res; [|reflexivity].
+    rewrite (IH st1 Hcs). reflexivity.
+Qed.
+
+(* ---------- discovery ---------- *)
+
+Lemma build_light_total st nd :
+  match snd (fst (build_light sh st nd)) with BRaise => False | _ => True end.
+Proof.
+  destruct Hgood as (_ & _ & _ & _ & Hg).
+  unfold build_light. destruct (n_kind nd).
+  - destruct (ask_all sh st (n_dev nd) _) as [[st1 ok] t1]. destruct (negb ok); exact I.
+  - destruct (ask_all sh st (n_dev nd) _) as [[st1 ok] t1]. destruct (negb ok); [exact I|].
+    destruct (send sh st1 (n_dev nd) KGetZones []) as [[st2 []] rq]; cbn; try exact I. rewrite Hg. exact I.
+  - destruct (ask_all sh st (n_dev nd) _) as [[st1 ok] t1]. destruct (negb ok); [exact I|].
+    destruct (send sh st1 (n_dev nd) KGetChain []) as [[st2 []] rq]; exact I.
+Qed.
+
+Lemma build_all_total net : forall st,
+  match snd (fst (build_all sh st net)) with GLRaise => False | _ => True end.
+Proof.
+  induction net as [|nd net IH]; intros st; cbn [build_all]; [exact I|].
+  pose proof (build_light_total st nd) as H. destruct (build_light sh st nd) as [[st1 b] t1]. cbn [fst snd] in H.
+  destruct b; [|exact I|contradiction].
+  specialize (IH st1). destruct (build_all sh st1 net) as [[st2 g] t2]. cbn [fst snd] in *. destruct g; auto.
+Qed.
+
+(* THEOREM: discovery reports a boolean for every plan, network and previous directory. *)
+Theorem discover_total dir st net :
+  discover_never_raises (snd (fst (fst (discover sh dir st net)))).
+Proof.
+  unfold discover, get_lights.
+  destruct (send sh st lan KLanGetLights []) as [[st1 []] rq].
+  - pose proof (build_all_total net st1) as H. destruct (build_all sh st1 net) as [[st2 g] t]. cbn [fst snd] in H.
+    destruct g; cbn; [exists true|exists false|contradiction]; reflexivity.
+  - exists false. reflexivity.
+  - exists false. reflexivity.
+Qed.
+
+(* THEOREM: a discovery that reports failure leaves the directory as it was. *)
+Theorem failed_discover_keeps_directory dir st net :
+  let '(_, e, dir', _) := discover sh dir st net in
+  e = Reported false -> dir' = dir /\ failed_discover_keeps e (view dir) (view dir').
+Proof.
+  unfold discover. destruct (get_lights sh st net) as [[st1 g] t].
+  destruct g; intros H; try discriminate. split; [reflexivity|]. intros _. reflexivity.
+Qed.
+
+(* every request of a discovery is attempted at most three times as well *)
+Lemma ask_all_trace ks : forall st d, Forall req_ok (snd (ask_all sh st d ks)).
+Proof.
+  induction ks as [|k ks IH]; intros st d; cbn [ask_all]; [constructor|].
+  pose proof (send_req_ok st d k []) as H. destruct (send sh st d k []) as [[st1 sn] rq]. cbn [snd] in H.
+  destruct sn; try (cbn; constructor; [exact H|constructor]).
+  specialize (IH st1 d). destruct (ask_all sh st1 d ks) as [[st2 ok] t]. cbn [snd] in *. constructor; assumption.
+Qed.
+
+Lemma build_light_trace st nd : Forall req_ok (snd (build_light sh st nd)).
+Proof.
+  unfold build_light. destruct (n_kind nd).
+  - pose proof (ask_all_trace ([KGetFeatures; KGetProductName; KGetFeatures] ++ init_requests) st (n_dev nd)) as H.
+    destruct (ask_all sh st (n_dev nd) _) as [[st1 ok] t1]. destruct (negb ok); exact H.
+  - pose proof (ask_all_trace ([KGetFeatures; KGetProductName] ++ init_requests) st (n_dev nd)) as H.
+    destruct (ask_all sh st (n_dev nd) _) as [[st1 ok] t1]. cbn [snd] in H. destruct (negb ok); [exact H|].
+    pose proof (send_req_ok st1 (n_dev nd) KGetZones []) as H2.
+    destruct (send sh st1 (n_dev nd) KGetZones []) as [[st2 sn] rq]. cbn [snd] in H2.
+    destruct sn; cbn [snd]; apply Forall_app; (split; [exact H|constructor; [exact H2|constructor]]).
+  - pose proof (ask_all_trace ([KGetFeatures; KGetProductName; KGetFeatures] ++ init_requests) st (n_dev nd)) as H.
+    destruct (ask_all sh st (n_dev nd) _) as [[st1 ok] t1]. cbn [snd] in H. destruct (negb ok); [exact H|].
+    pose proof (send_req_ok st1 (n_dev nd) KGetChain []) as H2.
+    destruct (send sh st1 (n_dev nd) KGetChain []) as [[st2 sn] rq]. cbn [snd] in H2.
+    destruct sn; cbn [snd]; apply Forall_app; (split; [exact H|constructor; [exact H2|constructor]]).
+Qed.
+
+Lemma build_all_trace net : forall st, Forall req_ok (snd (build_all sh st net)).
+Proof.
+  induction net as [|nd net IH]; intros st; cbn [build_all]; [constructor|].
+  pose proof (build_light_trace st nd) as H. destruct (build_light sh st nd) as [[st1 b] t1]. cbn [snd] in H.
+  destruct b; try exact H.
+  specialize (IH st1). destruct (build_all sh st1 net) as [[st2 g] t2]. cbn [snd] in *. apply Forall_app. split; assumption.
+Qed.
+
+Theorem discover_attempts_bounded dir st net :
+  let '(_, _, _, t) := discover sh dir st net in attempts_bounded t /\ well_retried t.
+Proof.
+  assert (H : Forall req_ok (snd (discover sh dir st net))).
+  { unfold discover, get_lights.
+    pose proof (send_req_ok st lan KLanGetLights []) as H1.
+    destruct (send sh st lan KLanGetLights []) as [[st1 sn] rq]. cbn [snd] in H1.
+    destruct sn; try (cbn; constructor; [exact H1|constructor]).
+    pose proof (build_all_trace net st1) as H2. destruct (build_all sh st1 net) as [[st2 g] t]. cbn [snd] in H2.
+    destruct g; cbn; constructor; assumption. }
+  destruct (discover sh dir st net) as [[[st' e] dir'] t]. cbn [snd] in H.
+  unfold attempts_bounded, well_retried. split; eapply Forall_impl; try exact H; intros r [H1 H2]; assumption.
+Qed.
+
 End WithShapes.
+
+(* ---------- the statements for the code as it is now ---------- *)
+
+Lemma no_faults_healthy d : healthy no_faults d.
+Proof. intros k. constructor. Qed.
+
+(* what "first n outcomes all fail" means, for every bound n (tries_bound) *)
+Theorem tries_bound_all {A} (n : nat) (call fv : A) (s : stream) :
+  let '(r, attempts, rest) := tries n call fv s in
+  (attempts <= n)%nat /\ (r = GaveUp fv <-> all_fail n s) /\ (r <> GaveUp fv -> r = Answered call) /\
+  rest = skipn attempts s.
+Proof.
+  pose proof (tries_bound n call fv s) as H. destruct (tries n call fv s) as [[r u] rest].
+  destruct H as (Hu & Hg & Hg1 & Hg2 & Hr). splits; try assumption.
+  - split.
+    + intros ->. apply Hg. reflexivity.
+    + intros Hf. apply Hg1, Hg. exact Hf.
+  - intros Hne. destruct (gave_up r) eqn:E; [|apply Hg2; reflexivity]. destruct (Hg1 eq_refl) as [-> _]. contradiction.
+Qed.
+
+(* non-interference in the specification's words, with the commands aimed at unknown or
+   wrong-type targets deleted from the reference run *)
+Theorem non_interference_current dir cs (p : plan) regs colors :
+  healthy p lan -> Forall (fun c => addressable c = true) cs ->
+  let '(st1, res1, t1) := run current dir (init_state p regs colors) cs in
+  let '(st2, res2, t2) := run current dir (init_state no_faults regs colors)
+                              (filter (fun c => negb (idle dir c)) cs) in
+  s_dirty st1 = false -> res1 = res2 /\ undisturbed (healthy p) t1 t2.
+Proof.
+  intros Hlan Hadd.
+  rewrite <- (run_without_idle current current_good dir cs (init_state no_faults regs colors) Hadd).
+  destruct (run current dir (init_state p regs colors) cs) as [[st1 res1] t1] eqn:E1.
+  destruct (run current dir (init_state no_faults regs colors) cs) as [[st2 res2] t2] eqn:E2.
+  intros Hd. split.
+  - pose proof (run_non_interference current current_good dir cs p no_faults regs colors lan Hlan no_faults_healthy Hlan) as H.
+    rewrite E1, E2 in H. apply H. exact Hd.
+  - intros h Hh.
+    pose proof (run_non_interference current current_good dir cs p no_faults regs colors h Hlan no_faults_healthy Hh) as H.
+    rewrite E1, E2 in H. apply H. exact Hd.
+Qed.
+
+(* ---------- examples: the hypotheses are satisfiable, the exclusions necessary ---------- *)
+
+Definition ex_dir : directory :=
+  [ mkw 0 "A" "g" "home" WPlain; mkw 1 "B" "g" "home" WPlain;
+    mkw 3 "C" "h" "home" (WMatrix (Some (2, 2))); mkw 2 "S" "h" "den" (WMultizone 8) ].
+Definition ex_colors : dev -> list Z := fun d => [d + 10; 20; 30; 40].
+Definition silent (d : dev) (k : rkind) : plan := plan_set no_faults d k [false; false; false].
+
+Lemma silent_healthy d k h : h <> d -> healthy (silent d k) h.
+Proof. intros Hne k'. unfold silent. rewrite plan_set_other_dev by exact Hne. constructor. Qed.
+
+Definition result_of (o : outcome3) : result := snd (fst o).
+Definition trace_of (o : outcome3) : trace := snd o.
+Definition dirty_of (o : outcome3) : bool := s_dirty (fst (fst o)).
+
+(* a silent light, unknown names and wrong-type targets: the script runs to its end, the
+   silent light's request is tried three times and abandoned, its group mate is served *)
+Definition ex_cmds : list cmd :=
+  [CRegs [1; 2; 3; 4]; CColor (TGroup "g") 5; CPower (TLight "Nobody") true 0; CZone "A" 1 None 0;
+   CMatrix "S" (Some (1, None)) None 0; CGet "C"; CColor (TLocation "nowhere") 0; CPower (TLight "B") false 0].
+
+Example ex_survives :
+  let o := run current ex_dir (init_state (silent 0 KSetColor) [0; 0; 0; 0] ex_colors) ex_cmds in
+  result_of o = Continue /\ dirty_of o = false /\
+  trace_of o = [mkreq 0 KSetColor [1; 2; 3; 4; 5] [false; false; false]; mkreq 1 KSetColor [1; 2; 3; 4; 5] [true];
+                mkreq 1 KSetPower [0; 0] [true]].
+Proof. vm_compute. auto. Qed.
+
+(* ... and it is an instance of the theorems: hypotheses satisfiable *)
+Example ex_non_interference :
+  healthy (silent 0 KSetColor) lan /\ healthy (silent 0 KSetColor) 1 /\
+  Forall (fun c => addressable c = true) ex_cmds /\
+  filter (fun c => negb (idle ex_dir c)) ex_cmds = [CRegs [1; 2; 3; 4]; CColor (TGroup "g") 5; CPower (TLight "B") false 0] /\
+  received 1 (trace_of (run current ex_dir (init_state (silent 0 KSetColor) [0; 0; 0; 0] ex_colors) ex_cmds))
+  = [(KSetColor, [1; 2; 3; 4; 5]); (KSetPower, [0; 0])].
+Proof.
+  splits; try (apply silent_healthy; discriminate); try reflexivity.
+  repeat constructor.
+Qed.
+
+(* NECESSITY of the exclusion, 1: a `get` that is abandoned yields the documented -1
+   colour, and a healthy light then receives another colour than in the fault-free run *)
+Example failed_get_interferes :
+  let cs := [CRegs [1; 2; 3; 4]; CGet "A"; CColor (TLight "B") 0] in
+  let o1 := run current ex_dir (init_state (silent 0 KGetColor) [0; 0; 0; 0] ex_colors) cs in
+  let o2 := run current ex_dir (init_state no_faults [0; 0; 0; 0] ex_colors) cs in
+  healthy (silent 0 KGetColor) 1 /\ dirty_of o1 = true /\ result_of o1 = Continue /\
+  received 1 (trace_of o1) = [(KSetColor, [0; 0; 0; 0; 0])] /\
+  received 1 (trace_of o2) = [(KSetColor, [10; 20; 30; 40; 0])].
+Proof. cbv zeta. splits; try (apply silent_healthy; discriminate); vm_compute; reflexivity. Qed.
+
+(* NECESSITY, 2: the `get` is answered, but by a light whose previous `set` was abandoned *)
+Example stale_get_interferes :
+  let cs := [CRegs [1; 2; 3; 4]; CColor (TLight "A") 0; CGet "A"; CColor (TLight "B") 0] in
+  let o1 := run current ex_dir (init_state (silent 0 KSetColor) [0; 0; 0; 0] ex_colors) cs in
+  let o2 := run current ex_dir (init_state no_faults [0; 0; 0; 0] ex_colors) cs in
+  healthy (silent 0 KSetColor) 1 /\ dirty_of o1 = true /\
+  received 1 (trace_of o1) = [(KSetColor, [10; 20; 30; 40; 0])] /\
+  received 1 (trace_of o2) = [(KSetColor, [1; 2; 3; 4; 0])].
+Proof. cbv zeta. splits; try (apply silent_healthy; discriminate); vm_compute; reflexivity. Qed.
+
+(* NECESSITY of the capability check (D23): with the pinned text of
+   Machine._color_matrix_light a row command aimed at a plain bulb ends the script *)
+Example pinned_matrix_on_plain_aborts :
+  let cs := [CMatrix "A" (Some (1, None)) None 0; CColor (TLight "B") 0] in
+  let o := run pinned ex_dir (init_state no_faults [1; 2; 3; 4] ex_colors) cs in
+  result_of o = Abort AbAttribute /\ received 1 (trace_of o) = [] /\
+  result_of (run repaired ex_dir (init_state no_faults [1; 2; 3; 4] ex_colors) cs) = Continue.
+Proof. vm_compute. auto. Qed.
+
+(* NECESSITY of the guard in MultizoneLight.__init__ (D24): with the pinned text a
+   multizone light that stays silent makes discovery raise *)
+Definition ex_net : network :=
+  [ mkn 0 "A" "g" "home" NPlain; mkn 2 "S" "h" "den" (NMultizone 8); mkn 3 "C" "h" "home" (NMatrix 2 2) ].
+
+Definition discover_end_of (o : state * discover_end * directory * trace) : discover_end := snd (fst (fst o)).
+Definition directory_of (o : state * discover_end * directory * trace) : directory := snd (fst o).
+
+Example pinned_silent_multizone_raises :
+  discover_end_of (discover pinned [] (init_state (silent 2 KGetZones) [] ex_colors) ex_net) = Raised /\
+  discover_end_of (discover repaired [] (init_state (silent 2 KGetZones) [] ex_colors) ex_net) = Reported true.
+Proof. vm_compute. auto. Qed.
+
+(* discovery: a failing identity request reports failure and keeps the directory; a
+   fault-free one fills it in name order *)
+Example ex_discover_fails :
+  let o := discover current ex_dir (init_state (plan_set no_faults 2 KGetGroup [false]) [] ex_colors) ex_net in
+  discover_end_of o = Reported false /\ directory_of o = ex_dir.
+Proof. vm_compute. auto. Qed.
+
+Example ex_discover_succeeds :
+  view (directory_of (discover current [] (init_state no_faults [] ex_colors) ex_net))
+  = [("A", (0, 0)); ("C", (3, 1002002)); ("S", (2, 1008))].
+Proof. vm_compute. reflexivity. Qed.
+
+(* FINDING (current code): a broadcast that cannot be sent ends the script -- nothing
+   retries or catches the WorkflowException of set_color_all_lights / set_power_all_lights *)
+Example broadcast_failure_aborts :
+  let cs := [CColor TAll 0; CColor (TLight "B") 0] in
+  let o := run current ex_dir (init_state (plan_set no_faults lan KLanSetColorAll [false]) [1; 2; 3; 4] ex_colors) cs in
+  result_of o = Abort AbWorkflow /\ received 1 (trace_of o) = [].
+Proof. vm_compute. auto. Qed.
+
+(* FINDING (current code): a matrix light that stayed silent to the size query during
+   discovery is entered with height = width = None; the first row/column command aimed at
+   it ends the script *)
+Example silent_matrix_aborts :
+  let d := discover current [] (init_state (silent 3 KGetChain) [] ex_colors) ex_net in
+  let o := run current (directory_of d) (init_state no_faults [1; 2; 3; 4] ex_colors)
+               [CMatrix "C" (Some (1, None)) None 0; CColor (TLight "A") 0] in
+  discover_end_of d = Reported true /\ result_of o = Abort AbSize /\ received 0 (trace_of o) = [].
+Proof. vm_compute. auto. Qed.
+
+(* ---------- the existential forms quoted in Props/C12.v ---------- *)
+
+Theorem discover_total_current dir st net :
+  let '(_, e, _, t) := discover current dir st net in
+  discover_never_raises e /\ attempts_bounded t.
+Proof.
+  pose proof (discover_total current current_good dir st net) as H1.
+  pose proof (discover_attempts_bounded current current_good dir st net) as H2.
+  destruct (discover current dir st net) as [[[st' e] dir'] t]. cbn [fst snd] in H1. tauto.
+Qed.
+
+Theorem get_exclusion_necessary :
+  (exists dir cs p regs colors h,
+     healthy p h /\ healthy p lan /\
+     dirty_of (run current dir (init_state p regs colors) cs) = true /\
+     exists k, In (CGet k) cs /\ p 0 KGetColor = [false; false; false] /\
+     received h (trace_of (run current dir (init_state p regs colors) cs)) <>
+     received h (trace_of (run current dir (init_state no_faults regs colors) cs))) /\
+  (exists dir cs p regs colors h,
+     healthy p h /\ healthy p lan /\ p 0 KGetColor = [] /\
+     dirty_of (run current dir (init_state p regs colors) cs) = true /\
+     received h (trace_of (run current dir (init_state p regs colors) cs)) <>
+     received h (trace_of (run current dir (init_state no_faults regs colors) cs))).
+Proof.
+  split.
+  - exists ex_dir, [CRegs [1; 2; 3; 4]; CGet "A"; CColor (TLight "B") 0], (silent 0 KGetColor), [0; 0; 0; 0], ex_colors, 1.
+    splits; try (apply silent_healthy; discriminate); try reflexivity.
+    exists "A". splits; [right; left; reflexivity|reflexivity|vm_compute; discriminate].
+  - exists ex_dir, [CRegs [1; 2; 3; 4]; CColor (TLight "A") 0; CGet "A"; CColor (TLight "B") 0],
+           (silent 0 KSetColor), [0; 0; 0; 0], ex_colors, 1.
+    splits; try (apply silent_healthy; discriminate); try reflexivity. vm_compute; discriminate.
+Qed.
+
+Theorem matrix_on_plain_refuted :
+  exists dir st cs, result_of (run pinned dir st cs) = Abort AbAttribute /\
+                    result_of (run repaired dir st cs) = Continue.
+Proof.
+  exists ex_dir, (init_state no_faults [1; 2; 3; 4] ex_colors), [CMatrix "A" (Some (1, None)) None 0; CColor (TLight "B") 0].
+  split; reflexivity.
+Qed.
+
+Theorem silent_multizone_refuted :
+  exists dir st net, discover_end_of (discover pinned dir st net) = Raised /\
+                     discover_end_of (discover repaired dir st net) = Reported true.
+Proof.
+  exists [], (init_state (silent 2 KGetZones) [] ex_colors), ex_net. split; reflexivity.
+Qed.
+
+Theorem broadcast_failure_aborts_ex :
+  exists dir st cs, ~ healthy (s_plan st) lan /\ result_of (run current dir st cs) = Abort AbWorkflow.
+Proof.
+  exists ex_dir, (init_state (plan_set no_faults lan KLanSetColorAll [false]) [1; 2; 3; 4] ex_colors),
+         [CColor TAll 0; CColor (TLight "B") 0].
+  split; [|reflexivity]. intros H. specialize (H KLanSetColorAll). cbn in H. inversion H. discriminate.
+Qed.
+
+Theorem silent_matrix_aborts_ex :
+  exists net p cs,
+    let d := discover current [] (init_state p [] (fun _ => [])) net in
+    discover_end_of d = Reported true /\
+    result_of (run current (directory_of d) (init_state no_faults [0; 0; 0; 0] (fun _ => [0; 0; 0; 0])) cs) = Abort AbSize.
+Proof.
+  exists ex_net, (silent 3 KGetChain), [CMatrix "C" (Some (1, None)) None 0; CColor (TLight "A") 0].
+  split; reflexivity.
+Qed.
